@@ -321,7 +321,7 @@ int comp_api()
             ret << r;
         }
         // ---- sequencer control
-        else if(o == "selectsong" && a.size() == 1) { opn2_selectSongNum(dev, (int)a[0]); ret << "- ev=" << log.take(); showSettings = false; }
+        else if(o == "selectsong" && a.size() == 1) { opn2_selectSongNum(dev, (int)a[0]); ret << "- ev=" << log.take(); log.now = 0; log.frames = 0; showSettings = false; }
         else if(o == "songs") ret << opn2_getSongsCount(dev);
         else if(o == "tracks") ret << opn2_trackCount(dev);
         else if(o == "trackopt" && a.size() == 2) ret << opn2_setTrackOptions(dev, (size_t)a[0], (unsigned)a[1]);
